@@ -129,7 +129,7 @@ pub fn rat_of(v: &Value) -> BigRational {
 
 /// build an identifier with an arbitrary path through its Deserialize impl
 /// (the only public constructor makes one-node identifiers)
-pub fn ident_of<T: serde::Serialize + serde::de::DeserializeOwned>(path: &Value, marker: &dyn Fn(&Value) -> T) -> Identifier<T> {
+pub fn ident_of<T: serde::Serialize + serde::de::DeserializeOwned + Ord + Clone + std::fmt::Debug>(path: &Value, marker: &dyn Fn(&Value) -> T) -> Identifier<T> {
     let nodes: Vec<(BigRational, T)> = path.as_array().unwrap().iter().map(|n| (rat_of(&n[0]), marker(&n[1]))).collect();
     let txt = serde_json::to_string(&nodes).unwrap();
     serde_json::from_str(&txt).expect("identifier from path")
